@@ -15,6 +15,8 @@ pub mod c10;
 #[cfg(feature = "full")]
 pub mod c11;
 #[cfg(feature = "full")]
+pub mod c16;
+#[cfg(feature = "full")]
 pub mod c26;
 #[cfg(feature = "full")]
 pub mod c30;
@@ -54,6 +56,7 @@ pub fn all() -> Vec<Property> {
         v.push(Property { id: "C09", level: "exploration", build: c09::build });
         v.push(Property { id: "C10", level: "exploration", build: c10::build });
         v.push(Property { id: "C11", level: "exploration", build: c11::build });
+        v.push(Property { id: "C16", level: "exploration", build: c16::build });
         v.push(Property { id: "C26", level: "exploration", build: c26::build });
         v.push(Property { id: "C30", level: "exploration", build: c30::build });
         v.push(Property { id: "C31", level: "exploration", build: c31::build });
